@@ -16,6 +16,8 @@ def method_stubs(P, cls_qual, names, extra=None):
 
     def make(name):
         f = P.func(f'{cls_qual}.{name}')
+        is_gen = any(isinstance(x, (ast.Yield, ast.YieldFrom))
+                     for x in au.walk_no_defs(f.node))
 
         def stub(m, call, args, kw):
             params = [p for p in f.params if p != 'self']
@@ -54,8 +56,6 @@ def method_stubs(P, cls_qual, names, extra=None):
                         raise interp.Unknown(f'argument {p} of {name}')
             sub = interp.Machine(env, m.stubs, m.resolver)
             sub.steps = m.steps
-            is_gen = any(isinstance(x, (ast.Yield, ast.YieldFrom))
-                         for x in au.walk_no_defs(f.node))
             if is_gen:
                 sub.yields = []
             try:
